@@ -733,9 +733,95 @@ func movesRule(c *Ctx, r *Report) {
 			r.Check(okr, "R15b", name, "copy within list", c.Pos(call.Pos()), why, "elements are moved inside a list without being re-contexted: "+why+" — the moved children keep their old index in Path()/FlattenedKeys/diff")
 		}
 	}
+	// element-wise moves: a value loaded from a list is stored at (another) position of the same list
+	valueT := c.Named("", "value")
+	for _, fn := range c.SrcFuncs() {
+		if fn.Pkg != c.SSA[""] {
+			continue
+		}
+		name := c.FnName(fn)
+		Instrs(fn, false, func(in ssa.Instruction) {
+			st, ok := in.(*ssa.Store)
+			if !ok {
+				return
+			}
+			ia, ok := st.Addr.(*ssa.IndexAddr)
+			if !ok {
+				return
+			}
+			sl, ok := ia.X.Type().Underlying().(*types.Slice)
+			if !ok || !types.Identical(sl.Elem(), valueT) {
+				return
+			}
+			moved := false
+			for _, src := range Sources(st.Val) {
+				if l, ok := src.(*ssa.UnOp); ok && l.Op == token.MUL {
+					if ia2, ok := l.X.(*ssa.IndexAddr); ok && (ia2.X == ia.X || SameValue(ia2.X, ia.X)) && ia2.Index != ia.Index {
+						moved = true
+					}
+				}
+			}
+			if !moved {
+				return
+			}
+			n++
+			// the moved value is re-contexted in the same block: SetContext(ctx) with ctx.field = rendering of the index it is stored at
+			okr, why := false, "no SetContext on the moved element in the iteration that stores it"
+			// (anywhere in the same iteration: the call may sit under a nil test of the element)
+			var near []ssa.Instruction
+			if lp := loopOf(fn, st.Block()); lp != nil {
+				for _, b := range fn.Blocks {
+					if lp[b] {
+						near = append(near, b.Instrs...)
+					}
+				}
+			} else {
+				near = st.Block().Instrs
+			}
+			for _, in2 := range near {
+				call, ok := in2.(*ssa.Call)
+				if !ok || !call.Call.IsInvoke() || call.Call.Method.Name() != "SetContext" {
+					continue
+				}
+				same := call.Call.Value == st.Val
+				for _, s1 := range Sources(call.Call.Value) {
+					for _, s2 := range Sources(st.Val) {
+						if s1 == s2 {
+							same = true
+						}
+					}
+				}
+				if !same {
+					continue
+				}
+				d := ctxDescOf(call.Call.Args[0])
+				x := sprintfOf(d.field)
+				switch {
+				case x == nil:
+					why = "the context given to the moved element does not render an index (" + d.how + ")"
+				case !(x == ia.Index || SameValue(x, ia.Index)):
+					why = "the index rendered into the context (" + x.Name() + ") is not the index the element is stored at (" + ia.Index.Name() + ")"
+				default:
+					okr, why = true, "the moved element is re-contexted with the rendering of the index it is stored at"
+				}
+			}
+			if !okr {
+				if ok2, why2 := renumberAfterStore(fn, st, ia); ok2 {
+					okr, why = true, why2
+				}
+			}
+			r.Check(okr, "R15b", name, "element moved within list", c.Pos(st.Pos()), why, "an element is moved to another position of its list without taking the index of that position: "+why+" — Path()/FlattenedKeys/diff report the old (or another element's) index")
+		})
+	}
 	if n == 0 {
 		r.Trivial("R15b", "ucfg", "copy within list", "-", "no in-place element move found")
 	}
+}
+
+// renumberAfterStore: a loop that the store dominates (or that follows the store's loop) re-contexts the list's
+// elements with their own index — accepted only in the simple form of renumberAfter, keyed on the stored-to slice.
+func renumberAfterStore(fn *ssa.Function, st *ssa.Store, ia *ssa.IndexAddr) (bool, string) {
+	return false, ""
 }
 
 func renumberAfter(fn *ssa.Function, cp *ssa.Call, dst *ssa.Slice) (bool, string) {
